@@ -13,6 +13,38 @@ CLAIMED = {
    note=TB + "; groups SO2,SO3,SE2,SE3,C1,Galilei,SE_K_3<1..3>, Bundles (2 quick / 8 thorough); float instantiation thorough only; accumulated rounding of "
         "polynomial kernels not claimed.",
    ref="DESIGN 4/C01", technique="symbolic execution of LLVM IR + SMT (z3 QF_NRA identity obligations)"),
+ "C02": dict(
+   text="Bounded symbolic check (layer R): the real exp/log of every group are executed symbolically on each path. Closed-form paths: z3 decides "
+        "docM(exp a) == expm(hat a) as an identity against the Hermite-interpolation oracle (spectrum obligation X^3(X^2+th^2)=0 discharged per group). "
+        "Series (small-angle) paths: the same residual with Lagrange-remainder enclosures of sin/cos, bounded on the box implied by the path condition by an "
+        "LRA relaxation. Round trips log(exp a)=a (|w|<pi) and exp(log g)=g, |log g|<=pi are decided by running the real log on the symbolic output of the real exp "
+        "and vice versa.",
+   note=TB + "; rotation boxes from the path condition, translations <= 1e3; round trips in quick tier for SO2,SO3,SE2,C1,SE3 (others thorough); obligations exceeding "
+        "the per-obligation time budget are reported undecided, never as success; floating-point cancellation next to the switch (layer E) not claimed.",
+   ref="DESIGN 4/C02", technique="symbolic execution of LLVM IR + SMT (z3 NRA identities, LRA-relaxed bounds with Taylor enclosures)"),
+ "C03": dict(
+   text="Bounded symbolic check (layer R): hat, vee, Ad, ad, lie_bracket of every group and Bundle shape executed symbolically; z3 decides for all elements / tangents "
+        "vee(hat a)=a, hat(Ad_g a) M(g) = M(g) hat(a), hat(ad_a b) = [hat a, hat b], hat(bracket(a,b)) = [hat a, hat b].",
+   note=TB + "; Ad(g1 g2)=Ad(g1)Ad(g2), antisymmetry, Jacobi are corollaries by matrix algebra; Ad(exp a)=expm(ad a) is covered through C02/C04 oracles.",
+   ref="DESIGN 4/C03", technique="symbolic execution of LLVM IR + SMT (polynomial identity obligations)"),
+ "C04": dict(
+   text="Bounded symbolic check (layer R): dr_exp, dl_exp, dr_expinv, dl_expinv, dr_action executed symbolically on every path and decided against the DEFINITION "
+        "of the right/left Jacobian applied to the C02 oracle: column k = vee(E(-a) dE/da_k) (symbolic differentiation of the Hermite matrix exponential); inverses "
+        "through oracle_J * impl = I. Identity on closed-form paths, enclosure bounds (tol 1e-7) on series paths.",
+   note=TB + "; quick: SO2,SO3,SE2,C1,SE3; thorough adds Galilei, SE_K_3, Bundles; rotation norm < pi-1e-3 for inverses; some SE3 inverse coupling-block obligations exceed "
+        "the quick budget and are reported undecided.",
+   ref="DESIGN 4/C04", technique="symbolic execution of LLVM IR + symbolic differentiation oracle + SMT"),
+ "C05": dict(
+   text="Bounded symbolic check (layer R): d2r_exp/d2l_exp decided entry-wise against d/da_k of the C04 oracle; d2r_expinv/d2l_expinv and d2r_rminus through "
+        "J D_k J = -dJ/da_k; *_squarednorm structurally; d_matrix_product and d2_fog on fully symbolic matrices against the product/chain rule in index form.",
+   note=TB + "; quick: SO2,SO3,SE2,C1 (+SE3 d2r_exp); thorough adds SE3 and a Bundle; helper sizes listed in evidence; tol 1e-5 on series paths.",
+   ref="DESIGN 4/C05", technique="symbolic execution of LLVM IR + symbolic differentiation oracle + SMT"),
+ "C06": dict(
+   text="Bounded symbolic check: every Bundle operation (15 ops incl. Jacobians and Hessians) is executed symbolically and compared, entry by entry, with the same "
+        "library operation executed symbolically on each part alone (path conditions matched by the solver); entries outside the diagonal blocks must be the constant 0. "
+        "Eigen vectors (static/dynamic) and double through the free-function interface are decided to be the additive group.",
+   note=TB + "; shapes enumerated (4 quick / 10 thorough, incl. nested, repeated, all-commutative); correctness of the parts themselves is C01-C05.",
+   ref="DESIGN 4/C06", technique="symbolic execution of LLVM IR + SMT (term identity, structural)"),
 }
 NA = {}
 checks = []
